@@ -521,7 +521,10 @@ class TracerMixin:
 
         # If starting from an empty `Trace` or `reset`ting the `Trace`,
         # re-initialise the variable
-        if self[self.TRACE_NAME][t].is_empty() or reset:
+        # (a period added by `reindex()` holds a fill value rather than a
+        # `Trace`: nothing has been recorded for it yet, either)
+        current = self[self.TRACE_NAME][t]
+        if reset or not isinstance(current, Trace) or current.is_empty():
             self[self.TRACE_NAME][t] = Trace(names)
 
         # Add the results to the `Trace`
